@@ -1,21 +1,83 @@
 """C11 — splitting on a marker partitions the track; markers reflect the thresholds
-(tracklib/algo/segmentation.py: segmentation(), split(); tracklib/core/track.py: Track.extract)."""
+(tracklib/algo/segmentation.py: segmentation(), split(); tracklib/core/track.py: Track.extract, Track.length;
+tracklib/core/track_collection.py: TrackCollection.segmentation, split_segmentation)."""
 import sys, itertools, math
 from fractions import Fraction
-from engine import Prop, ratstr
+from engine import Prop, ratstr, fbits
 
-# marker values used by the `splitv` stream: token -> python value ; an observation is marked iff value == 1
+# marker / feature cell values: token -> python value ; an observation is marked iff value == 1
 VALS = {"0": 0, "1": 1, "2": 2, "1.0": 1.0, "0.5": 0.5, "nan": float("nan"), "True": True, "False": False,
         "-1": -1, "1.5": 1.5, "0.0": 0.0}
+INF = float("inf")
+VIRTUAL = ("x", "y", "z")          # virtual feature names that can be tested by segmentation()
 
 
 def fval(tok):
-    return float("nan") if tok == "nan" else float(Fraction(tok))
+    """token of a tested value / threshold -> python float"""
+    if tok == "nan":
+        return float("nan")
+    if tok == "inf":
+        return INF
+    if tok == "-inf":
+        return -INF
+    return float(Fraction(tok))
+
+
+def tokval(tok):
+    """token of a feature cell -> the python value put in the track"""
+    return VALS[tok] if tok in VALS else fval(tok)
+
+
+def valtok(v):
+    """python value read from a track -> exact protocol token (by value: True = 1 = 1.0)"""
+    if isinstance(v, bool):
+        return "1" if v else "0"
+    f = float(v)
+    if f != f:
+        return "nan"
+    if f == INF:
+        return "inf"
+    if f == -INF:
+        return "-inf"
+    return ratstr(Fraction(f))      # exact: every value generated here is a double (or an integer below 2^53)
+
+
+def exact(tok):
+    """token -> None (NaN) | Fraction | +-inf, for the oracle (Fraction/float comparisons are exact in Python)"""
+    if tok == "nan":
+        return None
+    if tok == "inf":
+        return INF
+    if tok == "-inf":
+        return -INF
+    return Fraction(tok)
+
+
+def coord(tok):
+    return float(tok)               # "nan", "inf", "-inf", decimal
+
+
+def limval(tok):
+    """limit token -> the python number passed to split(): int when written without a point"""
+    return float(tok) if ("." in tok or "e" in tok) else int(tok)
 
 
 # ------------------------------------------------------------------------------------------------
 # the property's oracle, independent of the implementation
 # ------------------------------------------------------------------------------------------------
+def expected_pieces(marks):
+    """the partition the statement describes, as index lists (without any trailing empty piece)"""
+    out, cur = [], []
+    for i, m in enumerate(marks):
+        cur.append(i)
+        if m:
+            out.append(cur)
+            cur = []
+    if cur and out:
+        out.append(cur)
+    return out
+
+
 def oracle_split(marks, pieces):
     """marks: list of bool (observation i is marked); pieces: list of lists of observation tags 0..n-1"""
     n = len(marks)
@@ -41,8 +103,24 @@ def oracle_split(marks, pieces):
     return None
 
 
+def oracle_kept(marks, pieces):
+    """limit > 0: which pieces are kept is the library's documented filter (left to the correspondence); what the
+    statement still says of the kept ones: each is one of the pieces of the partition, in order, none twice"""
+    want = expected_pieces(marks)
+    got = [p for p in pieces if p]          # a trailing empty piece is no observation at all
+    j = 0
+    for p in got:
+        while j < len(want) and want[j] != p:
+            j += 1
+        if j == len(want):
+            return ("kept pieces %s are not a sub-sequence (same order, none twice) of the pieces %s of the partition"
+                    % (pieces, want))
+        j += 1
+    return None
+
+
 def oracle_markers(mode, ths, rows):
-    """expected 0/1 string; ths: Fractions; rows: lists of Fraction or None (NaN)"""
+    """expected 0/1 string; ths, rows: exact values (None = NaN)"""
     out = []
     for r in rows:
         ex = [v > ths[i] for i, v in enumerate(r) if v is not None]
@@ -56,68 +134,195 @@ def parse_pieces(tok):
     return [[] if p == "e" else [int(x) for x in p.split(",")] for p in tok.split(";")]
 
 
+def parse_table(tok):
+    if tok == "_":
+        return []
+    out = []
+    for e in tok.split(";"):
+        nm, vs = e.split("=")
+        out.append([nm, [] if vs == "_" else vs.split(",")])
+    return out
+
+
 class P(Prop):
     id = "C11"
     design_ref = "DESIGN.md section 5, C11"
+    M = "TracklibVerif.Props.C11"
     theorems = [
-        ("TracklibVerif.Props.C11", "TV.C11.split_partition", "with at least one marked observation the pieces, concatenated in order, are exactly the track"),
-        ("TracklibVerif.Props.C11", "TV.C11.split_none", "with no marked observation the returned collection is empty"),
-        ("TracklibVerif.Props.C11", "TV.C11.split_ends_marked", "every piece but the last ends at a marked observation and contains no other marked one"),
-        ("TracklibVerif.Props.C11", "TV.C11.split_tail_unmarked", "the last piece contains no marked observation"),
-        ("TracklibVerif.Props.C11", "TV.C11.split_only_tail_empty", "only the trailing piece can be empty"),
-        ("TracklibVerif.Props.C11", "TV.C11.split_tail_empty_iff", "the trailing piece is empty exactly when the last observation is marked"),
-        ("TracklibVerif.Props.C11", "TV.C11.split_pairs", "split only looks at the markers: pieces of (obs, marker) pairs are the images of the pieces of the self-tagged track"),
-        ("TracklibVerif.Props.C11", "TV.C11.marker_and", "AND mode: call succeeds and marker = 1 iff some tested non-NaN value exceeds its threshold"),
-        ("TracklibVerif.Props.C11", "TV.C11.marker_or", "OR mode: call succeeds and marker = 1 iff every tested non-NaN value exceeds its threshold"),
-        ("TracklibVerif.Props.C11", "TV.C11.markers_each", "segmentation() yields one marker per observation, each as in marker_and / marker_or"),
+        (M, "TV.C11.split_partition", "with at least one marked observation the pieces, concatenated in order, are exactly the track"),
+        (M, "TV.C11.split_none", "with no marked observation the returned collection is empty"),
+        (M, "TV.C11.split_ends_marked", "every piece but the last ends at a marked observation and contains no other marked one"),
+        (M, "TV.C11.split_tail_unmarked", "the last piece contains no marked observation"),
+        (M, "TV.C11.split_only_tail_empty", "only the trailing piece can be empty"),
+        (M, "TV.C11.split_tail_empty_iff", "the trailing piece is empty exactly when the last observation is marked"),
+        (M, "TV.C11.split_pairs", "split only looks at the markers: pieces of (obs, marker) pairs are the images of the pieces of the self-tagged track"),
+        (M, "TV.C11.split_limit_filter", "split(track, name, limit) = the pieces of split(track, name) that pass the filter of their position (loop filter / closing-piece filter), in order"),
+        (M, "TV.C11.split_limit_sublist", "the kept pieces are a sub-sequence of the plain pieces and their observations a sub-sequence of the track (order kept, nothing twice)"),
+        (M, "TV.C11.split_limit_zero", "limit = 0 is the plain split whatever Track.length returns for the pieces (NaN included)"),
+        (M, "TV.C11.split_limit_pos", "limit > 0 with comparable lengths: exactly the plain pieces of length >= limit"),
+        (M, "TV.C11.split_uid_pieces", "the loop written with the code's i / begin / count (which yields the uid numbers) returns the same pieces"),
+        (M, "TV.C11.split_uid_numbers", "uid <uid>.<count>.<begin>.<end>: the piece is the run begin..end of the track, count numbers the returned pieces 0,1,2,.."),
+        (M, "TV.C11.split_uid_extract", "every returned piece is Track.extract(begin, end) of the track for the begin / end of its uid (closing piece after a marked last observation: extract(size, size-1) = empty)"),
+        (M, "TV.C11.extract_inclusive", "Track.extract(a, b), 0 <= a <= b < size, is the run a..b with both ends"),
+        (M, "TV.C11.extract_reversed_empty", "Track.extract(a, b) with a > b is the empty track, never an error"),
+        (M, "TV.C11.split_indices", "split(track, [sorted in-range indices], limit): the runs i_k..i_{k+1} that are not short, len-1 of them when limit = 0"),
+        (M, "TV.C11.split_collection", "split_segmentation: the pieces in order are the tracks having a marked observation, each observation once, in order"),
+        (M, "TV.C11.marker_and_ord", "AND mode, any scalar type with a total comparison: call succeeds and marker = 1 iff some tested non-NaN value exceeds its threshold"),
+        (M, "TV.C11.marker_or_ord", "OR mode, same generality: marker = 1 iff every tested non-NaN value exceeds its threshold"),
+        (M, "TV.C11.markers_each_ord", "segmentation() yields one marker per observation, each the marker of its row"),
+        (M, "TV.C11.marker_extra_thresholds", "more thresholds than tested features: the extra ones are never read"),
+        (M, "TV.C11.marker_index_error", "fewer thresholds (outside the domain): IndexError as soon as the feature at position len(thresholds) has a non-NaN value"),
+        (M, "TV.C11.marker_and", "AND mode on exact rationals (finite doubles)"),
+        (M, "TV.C11.marker_or", "OR mode on exact rationals (finite doubles)"),
+        (M, "TV.C11.markers_each", "whole track on exact rationals"),
+        (M, "TV.C11.marker_and_ext", "AND mode with infinite values / thresholds"),
+        (M, "TV.C11.marker_or_ext", "OR mode with infinite values / thresholds"),
+        (M, "TV.C11.segmentation_track", "a call in the domain succeeds; the output feature holds the markers of the rows read from the tested features (virtual ones included); every other feature, the names and their order are unchanged"),
+        (M, "TV.C11.segmentation_history", "what an already existing output feature held before the call has no influence on the result"),
+        (M, "TV.C11.segmentation_collection", "TrackCollection.segmentation = segmentation() on every track in turn"),
+        (M, "TV.C11.listify_one", "a bare feature name / threshold is the one-element list"),
     ]
     partial = []
-    open_statements = ["split(track, name, limit > 0) (pieces shorter than `limit` are dropped) and split(track, <index list>) are not modelled: out of the property's domain",
-                       "thresholds/values are exact rationals in the model (IEEE comparison of finite doubles is exact, so nothing is lost; infinities are not generated)"]
-    modelled = ("segmentation.split(track, <feature name>, limit=0) (begin / extract(begin, i) inclusive / tail when begin != 0, "
-                "Track.extract with begin > end giving an empty track), and segmentation.segmentation() (per-observation AND/OR fold of "
+    open_statements = [
+        "Track.length is an uninterpreted function of the piece in the limit theorems (that is what makes them cover NaN lengths); "
+        "its float evaluation (sqrt, the order of the additions) is only in the driver (model run at Float) and the correspondence",
+        "split(track, <index list>) with unsorted / negative / out-of-range indices: modelled (Python indexing, IndexError) and run in the "
+        "correspondence, no theorem beyond extract_reversed_empty",
+        "a NaN threshold, thresholds_max = None, tuples as feature lists, an empty track (AnalyticalFeatureError) are outside the domain",
+    ]
+    modelled = ("segmentation.split(track, <feature name>, limit) (begin / extract(begin, i) inclusive / begin moved before the limit test / "
+                "the two limit tests `limit > 0 and length < limit` and `limit == 0 or (limit > 0 and length >= limit)` / tail when "
+                "begin != 0, the uid numbers count / begin / end of every piece), split(track, <index list>, limit), Track.extract (range(a, b+1) with Python list indexing, a > b gives an "
+                "empty track), Track.length (sum of 3D distances, at Float), TrackCollection.segmentation / split_segmentation, and "
+                "segmentation.segmentation() as a whole: listify of afs_input / thresholds_max, createAnalyticalFeature(af_output) "
+                "(reserved names, empty track, existing feature kept), virtual features x y z, per-observation AND/OR fold of "
                 "value <= thresholds_max[index], NaN skipped, the `len(thresholds_max) >= index` guard with its IndexError / "
-                "float-max default, marker = not fold)")
+                "float-max default, marker = not fold written as 1 / 0 into the feature table")
     rule = ("HISTORY: about half of the segmentation cases run on a track whose output feature already exists (left by a previous "
             "segmentation() with other thresholds/mode, created by the user with 0/1/2/0.5/NaN values, or all 1s), or write the marker into one "
-            "of the tested features; other features (incl. names like #mark, #0, marker, out), uid and tid vary; oracle and model are about the LAST call only. "
-            "split: ALL 2^n marker vectors for n = 1..10 (quick) / 1..12 (thorough) on tracks whose observations carry unique tags, plus marker "
-            "features holding values other than 0/1 (2, 0.5, NaN, 1.0, True); segmentation: for 1..3 tested features and both modes every "
+            "of the tested features; other features (incl. names like #mark, #0, marker, out), uid, tid, base vary; the model replays the whole "
+            "sequence of calls on the feature table and the whole table is compared; the oracle is about the LAST call. "
+            "GEOMETRY: tracks with NaN / infinite coordinates (missing elevation), repeated positions, repeated timestamps; every piece is "
+            "compared observation by observation (position, timestamp, every feature value) with the source track, which must be left unchanged. "
+            "split: ALL 2^n marker vectors for n = 1..10 (quick) / 1..14 (thorough) on tracks whose observations carry unique tags; all marker "
+            "vectors n = 1..6 (9) x one observation without elevation at every position; marker features holding values other than 0/1 "
+            "(2, 0.5, NaN, 1.0, True); limit = 0 / 0.0 / default and limit > 0 (incl. a limit equal to a piece length) on lattice coordinates; "
+            "a virtual feature (x, y, z, idx) as the marker; a few tracks of 60..200 observations; feature cells holding numpy scalars; "
+            "index lists (sorted, and a few unsorted / negative / out of range). segmentation: for 1..3 tested features and both modes every "
             "combination of {below, equal, above, NaN} per feature (as one track and as single-observation tracks), random dyadic values with "
-            "NaN, scalar (non-list) arguments, more thresholds than features, then split on the produced marker; malformed stream: fewer "
-            "thresholds than features (IndexError / float-max default: run on both sides, no claim by the property, not compared). "
+            "NaN and +-inf, tested features given as a bare name or a list, thresholds as a bare number or a list, a feature tested twice, "
+            "virtual features (x, y, z) as tested features, more thresholds than features, then split on the produced marker; collections of "
+            "1..4 tracks through TrackCollection.segmentation / split_segmentation; malformed stream: fewer thresholds than features "
+            "(IndexError / float-max default: run on both sides, no claim by the property, not compared). "
             "non-trivial = split with at least one marker on a track of >= 2 observations, or segmentation with at least one non-NaN value")
 
     def setup(self):
         import importlib
         importlib.import_module("tracklib.algo.segmentation")
         self.S = sys.modules["tracklib.algo.segmentation"]
-        from tracklib.core import Obs, ENUCoords, ObsTime
+        from tracklib.core import Obs, ENUCoords, ECEFCoords, ObsTime
         from tracklib.core.track import Track
-        self.Obs, self.ENU, self.T, self.Track = Obs, ENUCoords, ObsTime, Track
+        from tracklib.core.track_collection import TrackCollection
+        self.Obs, self.ENU, self.ECEF, self.T, self.Track, self.TC = Obs, ENUCoords, ECEFCoords, ObsTime, Track, TrackCollection
 
     # ---------------------------------------------------------------- generators
     def nmax(self, tier):
-        return 12 if tier == "thorough" else 10
+        return 14 if tier == "thorough" else 10
+
+    def nmax_nan(self, tier):
+        return 9 if tier == "thorough" else 6
 
     def exhaustive_scopes(self, tier):
         return ["split(): all 2^n marker vectors for every track size n = 1..%d" % self.nmax(tier),
+                "split(): all 2^n marker vectors for n = 1..%d x one observation without elevation (Z = NaN) at every position" % self.nmax_nan(tier),
                 "segmentation(): 1..3 tested features x AND/OR x every combination of {below, equal, above, NaN} per feature, "
                 "for 4 threshold vectors, as one track and as single-observation tracks"]
 
     THS = [["2", "5", "-3/2"], ["0", "0", "0"], ["-1", "1/4", "1024"], ["7/2", "-7/2", "1/1024"]]
+    COORDS = ["0", "1", "-1", "0.5", "2", "-2.25", "3", "4", "0.25", "-0.75"]
+    LIMITS = ["1", "2", "0.5", "3.5", "1.4142135623730951", "1.0", "5", "0.25", "10"]
+
+    def rand_pts(self, rng, n):
+        """lattice coordinates (squares and their sums exact), repeated positions, NaN / infinite coordinates"""
+        pn = rng.choice([0.0, 0.0, 0.1, 0.3])
+        pts = []
+        for i in range(n):
+            if pts and rng.random() < 0.2:
+                p = list(pts[-1])                           # pause: repeated position
+            else:
+                p = [rng.choice(self.COORDS), rng.choice(self.COORDS), rng.choice(self.COORDS + ["0", "0"])]
+            for c in range(3):
+                if rng.random() < pn * (1.5 if c == 2 else 0.4):
+                    p[c] = rng.choice(["nan", "nan", "nan", "inf", "-inf"])
+            pts.append(p)
+        return pts
+
+    def rand_times(self, rng, n):
+        r = rng.random()
+        if r < 0.6:
+            return None
+        if r < 0.8:
+            return sorted(rng.randrange(0, n + 1) for _ in range(n))          # repeated timestamps
+        return [rng.randrange(0, 100000) for _ in range(n)]                    # any order
+
+    def rand_marks(self, rng, n):
+        toks = sorted(VALS)
+        pm = rng.choice([0.1, 0.3, 0.5, 0.8])
+        return [(rng.choice(toks) if rng.random() < 0.15 else ("1" if rng.random() < pm else "0")) for _ in range(n)]
+
+    def rand_splitg(self, rng, long=False):
+        n = rng.randrange(60, 200) if long else rng.randrange(1, 10)
+        c = {"kind": "splitg", "vals": self.rand_marks(rng, n), "pts": self.rand_pts(rng, n),
+             "limit": rng.choice(["default", "default", "0", "0.0"] + ([rng.choice(self.LIMITS)] * 3))}
+        if rng.random() < 0.12:
+            c["src"] = rng.choice(list(VIRTUAL) + ["idx"])      # split(track, "z"): a virtual feature as the marker
+        tm = self.rand_times(rng, n)
+        if tm:
+            c["times"] = tm
+        if rng.random() < 0.5:
+            c["env"] = self.rand_env(rng)
+        return c
+
+    def rand_splitidx(self, rng):
+        n = rng.randrange(1, 10)
+        r = rng.random()
+        m = rng.randrange(0, 6)
+        if r < 0.75:
+            idx = sorted(rng.randrange(0, n) for _ in range(m))
+        elif r < 0.85:
+            idx = [rng.randrange(0, n) for _ in range(m)]
+        else:
+            idx = [rng.randrange(-n - 1, n + 2) for _ in range(m)]
+        c = {"kind": "splitidx", "idx": idx, "pts": self.rand_pts(rng, n),
+             "limit": rng.choice(["default", "0"] + [rng.choice(self.LIMITS)] * 2)}
+        if rng.random() < 0.3:
+            c["env"] = self.rand_env(rng)
+        return c
 
     def cases(self, rng, tier):
         out = []
+        quick = tier == "quick"
         for n in range(1, self.nmax(tier) + 1):
             for bits in itertools.product("01", repeat=n):
                 out.append({"kind": "split", "m": "".join(bits)})
+        for n in range(1, self.nmax_nan(tier) + 1):
+            for bits in itertools.product("01", repeat=n):
+                for j in range(n):
+                    pts = [[str(i), str(2 * i), "0"] for i in range(n)]
+                    pts[j][2] = "nan"
+                    out.append({"kind": "splitg", "vals": list(bits), "pts": pts, "limit": "default"})
         toks = sorted(VALS)
-        for _ in range(300 if tier == "quick" else 3000):
+        for _ in range(300 if quick else 3000):
             n = rng.randrange(1, 9)
             out.append({"kind": "splitv", "vals": [rng.choice(toks) if rng.random() < 0.6 else rng.choice(["0", "1"]) for _ in range(n)]})
             if rng.random() < 0.5:
                 out[-1]["env"] = self.rand_env(rng)
+        for _ in range(1500 if quick else 60000):
+            out.append(self.rand_splitg(rng))
+        for _ in range(6 if quick else 60):
+            out.append(self.rand_splitg(rng, long=True))
+        for _ in range(400 if quick else 15000):
+            out.append(self.rand_splitidx(rng))
         # grids
         for ths in self.THS:
             for k in (1, 2, 3):
@@ -131,6 +336,7 @@ class P(Prop):
                     sh = list(rows)
                     rng.shuffle(sh)
                     out.append({"kind": "seg", "mode": mode, "ths": ths[:k], "rows": sh, "scalar": False, "split": True})
+                    out.append(self.with_forms(rng, {"kind": "seg", "mode": mode, "ths": ths[:k], "rows": sh, "split": True}))
                     for r in rows:
                         out.append({"kind": "seg", "mode": mode, "ths": ths[:k], "rows": [r], "scalar": (k == 1 and rng.random() < 0.5), "split": True})
                     # the same grid with the output feature already present (stale 1s everywhere / previous call / user values)
@@ -139,29 +345,48 @@ class P(Prop):
                         out.append(self.with_history(rng, {"kind": "seg", "mode": mode, "ths": ths[:k], "rows": sh, "split": True}, [Fraction(x, 2) for x in range(-6, 7)]))
         # random
         pool = [Fraction(x, 2) for x in range(-6, 7)]
-        for _ in range(1500 if tier == "quick" else 30000):
+        for _ in range(1500 if quick else 60000):
             k = rng.randrange(1, 4)
             n = rng.randrange(1, 13)
             r = rng.random()
             nth = k if r < 0.75 else (k + rng.randrange(1, 3) if r < 0.88 else rng.randrange(0, k))
-            ths = [rng.choice(pool) for _ in range(nth)]
+            pi = rng.choice([0.0, 0.0, 0.05, 0.2])
+            ths = [ratstr(rng.choice(pool)) if rng.random() >= pi * 0.5 else rng.choice(["inf", "-inf"]) for _ in range(nth)]
             pn = rng.choice([0.0, 0.15, 0.4, 0.8])
-            rows = [["nan" if rng.random() < pn else ratstr(rng.choice(pool)) for _ in range(k)] for _ in range(n)]
-            out.append({"kind": "seg", "mode": rng.choice(["and", "or"]), "ths": [ratstr(t) for t in ths], "rows": rows,
-                        "scalar": (k == 1 and nth == 1 and rng.random() < 0.3), "split": rng.random() < 0.7})
+            rows = [["nan" if rng.random() < pn else (rng.choice(["inf", "-inf"]) if rng.random() < pi else ratstr(rng.choice(pool)))
+                     for _ in range(k)] for _ in range(n)]
+            c = {"kind": "seg", "mode": rng.choice(["and", "or"]), "ths": ths, "rows": rows,
+                 "scalar": (k == 1 and nth == 1 and rng.random() < 0.3), "split": rng.random() < 0.7}
+            out.append(c)
             if nth >= k and rng.random() < 0.6:
-                out.append(self.with_history(rng, out[-1], pool))
+                out.append(self.with_history(rng, c, pool))
+            if rng.random() < 0.5:
+                out.append(self.with_forms(rng, c))
+        for _ in range(300 if quick else 12000):
+            k = rng.randrange(1, 3)
+            ths = [ratstr(rng.choice(pool)) for _ in range(k + (1 if rng.random() < 0.2 else 0))]
+            tracks = []
+            for _t in range(rng.randrange(1, 5)):
+                n = rng.randrange(1, 7)
+                pn = rng.choice([0.0, 0.2, 0.6])
+                hi = rng.random() < 0.25            # a track on which nothing exceeds: it must contribute no piece
+                tracks.append([["nan" if rng.random() < pn else ratstr(Fraction(-50) if hi else rng.choice(pool)) for _ in range(k)] for _ in range(n)])
+            out.append({"kind": "coll", "mode": rng.choice(["and", "or", "default"]), "ths": ths, "tracks": tracks})
         return out
 
     TEMP_NAMES = ["#mark", "#0", "#1", "marker", "out", "tag2", "comp", "idx2", "seuil_max"]
 
     def rand_env(self, rng):
-        """hidden state neither function should read: uid/tid, other features (incl. names like the code's temporaries)"""
+        """hidden state neither function should read: uid/tid/base, other features (incl. names like the code's temporaries)"""
         env = {}
         if rng.random() < 0.5:
             env["uid"] = rng.choice([0, 7, "7", "a.b", "trk-1", 123456, ""])
         if rng.random() < 0.3:
             env["tid"] = rng.choice([0, 1, "t", 42])
+        if rng.random() < 0.3:
+            env["base"] = rng.choice([[4201575.7, 189856.3, 4779066.0], [0.0, 0.0, 0.0]])
+        if rng.random() < 0.25:
+            env["numpy"] = True
         if rng.random() < 0.6:
             names = rng.sample(self.TEMP_NAMES, rng.randrange(1, 4))
             env["extra"] = [[nm, rng.choice(["0", "1", "2", "nan", "0.5", "-1"])] for nm in names]
@@ -194,154 +419,348 @@ class P(Prop):
         c["split"] = True
         return c
 
+    def with_forms(self, rng, case):
+        """variants of a seg case in the argument forms and feature names the front end accepts: a bare name / a bare
+        threshold, virtual features (coordinates, possibly NaN: a missing elevation) as tested features, a feature tested
+        twice, a track with its own geometry and timestamps"""
+        c = {k_: (list(v) if isinstance(v, list) else v) for k_, v in case.items()}
+        c.pop("scalar", None)
+        rows = [list(r) for r in c["rows"]]
+        k = len(rows[0])
+        n = len(rows)
+        names = ["f%d" % j for j in range(k)]
+        for j in range(k):
+            if rng.random() < 0.35:
+                free = [v for v in VIRTUAL if v not in names]
+                if free:
+                    names[j] = rng.choice(free)
+        if k >= 2 and rng.random() < 0.25:
+            a, b = rng.sample(range(k), 2)              # the same feature tested against two thresholds
+            names[b] = names[a]
+            for r in rows:
+                r[b] = r[a]
+        c["rows"] = rows
+        c["names"] = names
+        if k == 1:
+            c["afs_form"] = rng.choice(["str", "list"])
+        c["ths_form"] = "scalar" if (len(c["ths"]) == 1 and rng.random() < 0.5) else "list"
+        if rng.random() < 0.6:
+            c["pts"] = self.rand_pts(rng, n)
+        tm = self.rand_times(rng, n)
+        if tm:
+            c["times"] = tm
+        if rng.random() < 0.5:
+            c["env"] = self.rand_env(rng)
+        if rng.random() < 0.3 and len(c["ths"]) >= k:
+            c["pre"] = self.rand_pre(rng, k, n, [Fraction(x, 2) for x in range(-6, 7)])
+        c["split"] = True
+        return c
+
     def in_domain(self, case):
         if case["kind"] == "seg":
             return len(case["ths"]) >= len(case["rows"][0]) if case["rows"] else True
+        if case["kind"] == "coll":
+            return len(case["ths"]) >= len(case["tracks"][0][0])
         return True
 
     def describe(self, case):
         t = {"kind": case["kind"]}
-        if case["kind"] == "split":
+        k = case["kind"]
+        if k == "split":
             m = case["m"]
             t["n"] = len(m)
             t["shape"] = ("none" if "1" not in m else "") + ("first" if m[0] == "1" else "") + ("last" if m[-1] == "1" else "") + ("adjacent" if "11" in m else "")
-        if case["kind"] == "seg":
+        if k in ("splitg", "splitidx"):
+            lim = case.get("limit", "default")
+            t["limit"] = "0" if lim in ("default", "0", "0.0") else ">0"
+            flat = [c for p in case["pts"] for c in p]
+            t["coords"] = "nan" if "nan" in flat else "inf" if ("inf" in flat or "-inf" in flat) else "finite"
+        if k == "seg":
             t["mode"] = case["mode"]
             t["features"] = len(case["rows"][0])
             t["domain"] = "in" if self.in_domain(case) else "fewer-thresholds"
             t["history"] = (case["pre"]["type"] if case.get("pre") else "out=" + case["outname"][:1] if case.get("outname") else "fresh")
+            afs, ths = self.forms(case)
+            t["forms"] = afs + "/" + ths
+            if any(nm in VIRTUAL for nm in self.names(case)):
+                t["virtual"] = "yes"
+            flat = [v for r in case["rows"] for v in r] + list(case["ths"])
+            if "inf" in flat or "-inf" in flat:
+                t["infinite"] = "yes"
+        if k == "coll":
+            t["tracks"] = len(case["tracks"])
         if case.get("env"):
-            t["env"] = "+".join(sorted(k for k in case["env"] if k != "extra_after"))
+            t["env"] = "+".join(sorted(k_ for k_ in case["env"] if k_ != "extra_after"))
         return t
 
     def nontrivial(self, case):
-        if case["kind"] == "split":
+        k = case["kind"]
+        if k == "split":
             return len(case["m"]) >= 2 and "1" in case["m"]
-        if case["kind"] == "splitv":
-            return any(VALS[v] == 1 for v in case["vals"])
+        if k in ("splitv", "splitg"):
+            return any(self.marks(case))
+        if k == "splitidx":
+            return len(case["idx"]) >= 2
+        if k == "coll":
+            return any(v != "nan" for tr in case["tracks"] for r in tr for v in r)
         return any(v != "nan" for r in case["rows"] for v in r)
 
-    # ---------------------------------------------------------------- implementation
-    def track(self, n, env=None):
-        env = env or {}
-        t = self.Track([], env.get("uid", 7), env.get("tid", 0)) if "tid" in env else self.Track([], env.get("uid", 7))
-        for i in range(n):
-            t.addObs(self.Obs(self.ENU(float(i), float(2 * i), 0.0), self.T.readUnixTime(i)))
-        t.createAnalyticalFeature("tag", list(range(n)))
-        if not env.get("extra_after"):
-            self.extras(t, env)
-        return t
-
-    def extras(self, t, env):
-        for nm, tok in (env or {}).get("extra", []):
-            self.setfeat(t, nm, [VALS.get(tok, None) if tok in VALS else fval(tok)] * t.size())
+    # ---------------------------------------------------------------- the track of a case
+    @staticmethod
+    def names(case):
+        return case.get("names") or ["f%d" % j for j in range(len(case["rows"][0]))]
 
     @staticmethod
-    def setfeat(t, name, vals):
-        """create the feature, or overwrite it when it exists (createAnalyticalFeature silently keeps an existing one)"""
-        if t.size() == 0:
-            return
-        if t.hasAnalyticalFeature(name):
-            t.updateAnalyticalFeature(name, list(vals))
-        else:
-            t.createAnalyticalFeature(name, list(vals))
+    def forms(case):
+        sc = bool(case.get("scalar"))
+        return case.get("afs_form", "str" if sc else "list"), case.get("ths_form", "scalar" if sc else "list")
 
-    def pieces_of(self, coll):
-        pieces, uids = [], []
+    def points(self, case, n):
+        """[x, y, z] tokens per observation; a virtual tested feature takes its column from the rows"""
+        pts = [list(p) for p in case["pts"]] if case.get("pts") else [[str(i), str(2 * i), "0"] for i in range(n)]
+        if case["kind"] == "seg":
+            for j, nm in enumerate(self.names(case)):
+                if nm in VIRTUAL:
+                    for i in range(n):
+                        pts[i][VIRTUAL.index(nm)] = repr(fval(case["rows"][i][j]))
+        return pts
+
+    def table(self, case, n, offset=0):
+        """the analytical-feature table (ordered [name, tokens]) before the first segmentation()/split() call,
+        in the order in which impl() creates the features"""
+        env = case.get("env") or {}
+        tab = [["tag", [str(offset + i) for i in range(n)]]]
+
+        def put(nm, toks):
+            for e in tab:
+                if e[0] == nm:
+                    e[1] = list(toks)
+                    return
+            tab.append([nm, list(toks)])
+
+        def extras(skip=None):
+            for nm, tok in env.get("extra", []):
+                if nm != skip:
+                    put(nm, [tok] * n)
+        k = case["kind"]
+        if not env.get("extra_after"):
+            extras()
+        if k in ("split", "splitv", "splitg"):
+            put("marker", list(case["m"]) if k == "split" else case["vals"])
+            if env.get("extra_after"):
+                extras("marker")
+        elif k == "seg":
+            outname = case.get("outname", "out")
+            for j, nm in enumerate(self.names(case)):
+                if nm not in VIRTUAL:
+                    put(nm, [r[j] for r in case["rows"]])
+            if env.get("extra_after"):
+                extras(outname)
+            pre = case.get("pre")
+            if pre and pre["type"] == "vals":
+                put(outname, pre["vals"])
+            elif pre and pre["type"] == "all1":
+                put(outname, ["1"] * n)
+        return tab
+
+    def make_track(self, case, n, offset=0):
+        env = case.get("env") or {}
+        base = self.ECEF(*env["base"]) if env.get("base") else None
+        t = self.Track([], env.get("uid", 7), env.get("tid", 0), base)
+        pts = self.points(case, n)
+        times = case.get("times") or list(range(n))
+        for i in range(n):
+            t.addObs(self.Obs(self.ENU(coord(pts[i][0]), coord(pts[i][1]), coord(pts[i][2])), self.T.readUnixTime(times[i])))
+        for nm, toks in self.table(case, n, offset):
+            vals = [int(x) for x in toks] if nm == "tag" else [tokval(x) for x in toks]
+            if env.get("numpy") and nm != "tag":      # cells computed with numpy: np.float64 / np.int64 scalars
+                import numpy as np
+                vals = [v if isinstance(v, bool) else (np.int64(v) if isinstance(v, int) else np.float64(v)) for v in vals]
+            t.createAnalyticalFeature(nm, vals)
+        return t
+
+    @staticmethod
+    def snapshot(t):
+        """everything an observation is: position, timestamp, feature values (as exact tokens), per observation"""
+        names = t.getListAnalyticalFeatures()
+        snap = []
+        for i in range(t.size()):
+            o = t.getObs(i)
+            snap.append([valtok(o.position.getX()), valtok(o.position.getY()), valtok(o.position.getZ()),
+                         valtok(o.timestamp.toAbsTime())] + [valtok(t.getObsAnalyticalFeature(nm, i)) for nm in names])
+        return names, snap
+
+    def read_table(self, t):
+        return [[nm, [valtok(t.getObsAnalyticalFeature(nm, i)) for i in range(t.size())]] for nm in t.getListAnalyticalFeatures()]
+
+    def pieces_of(self, coll, names, snap):
+        """pieces as lists of tags; `content`: first difference between an observation of a piece and the observation of
+        the source track carrying the same tag (position, timestamp, every feature value), None when there is none"""
+        pieces, uids, content = [], [], None
         for p in coll.getTracks():
-            tags = [p.getObsAnalyticalFeature("tag", k) for k in range(p.size())]
-            # the tag feature and the coordinates must designate the same observation
-            for k in range(p.size()):
-                if p.getObs(k).position.getX() != float(tags[k]):
-                    raise ValueError("piece observation %d has x=%s but tag %s" % (k, p.getObs(k).position.getX(), tags[k]))
-            pieces.append([int(x) for x in tags])
+            pnames, psnap = self.snapshot(p)
+            tags = [int(p.getObsAnalyticalFeature("tag", k)) for k in range(p.size())]
+            if content is None and p.size() > 0 and pnames != names:
+                content = "a piece has the features %s, the track has %s" % (pnames, names)
+            for k, g in enumerate(tags):
+                if content is None and pnames == names and (g < 0 or g >= len(snap) or psnap[k] != snap[g]):
+                    content = ("observation %d of piece %d (tag %d) is %s, the track's observation is %s  [x, y, z, t, %s]"
+                               % (k, len(pieces), g, psnap[k], snap[g] if 0 <= g < len(snap) else None, ", ".join(names)))
+            pieces.append(tags)
             uids.append(str(p.uid))
-        return pieces, uids
+        return pieces, uids, content
+
+    def split_and_read(self, t, source, limit="default"):
+        names, snap = self.snapshot(t)
+        coll = self.S.split(t, source) if limit == "default" else self.S.split(t, source, limval(limit))
+        pieces, uids, content = self.pieces_of(coll, names, snap)
+        if content is None and self.snapshot(t) != (names, snap):
+            content = "split() modified the source track"
+        return {"pieces": pieces, "uids": uids, "content": content}
+
+    # ---------------------------------------------------------------- implementation
+    def mode_const(self, m):
+        return self.S.MODE_COMPARAISON_AND if m == "and" else self.S.MODE_COMPARAISON_OR
 
     def impl(self, case):
         k = case["kind"]
-        if k in ("split", "splitv"):
-            vals = [int(c) for c in case["m"]] if k == "split" else [VALS[v] for v in case["vals"]]
-            t = self.track(len(vals), case.get("env"))
-            self.setfeat(t, "marker", list(vals))
-            if (case.get("env") or {}).get("extra_after"):
-                self.extras(t, {"extra": [e for e in case["env"].get("extra", []) if e[0] != "marker"]})
-            pieces, uids = self.pieces_of(self.S.split(t, "marker"))
-            # the source track must be left as it was
-            if [t.getObsAnalyticalFeature("tag", i) for i in range(t.size())] != list(range(len(vals))):
-                raise ValueError("split() modified the source track")
-            return {"pieces": pieces, "uids": uids}
+        if k in ("split", "splitv", "splitg"):
+            n = len(case["m"]) if k == "split" else len(case["vals"])
+            t = self.make_track(case, n)
+            return self.split_and_read(t, case.get("src", "marker"), case.get("limit", "default"))
+        if k == "splitidx":
+            t = self.make_track(case, len(case["pts"]))
+            return self.split_and_read(t, list(case["idx"]), case.get("limit", "default"))
         if k == "seg":
             rows = case["rows"]
-            env = case.get("env") or {}
-            t = self.track(len(rows), env)
-            names = ["f%d" % j for j in range(len(rows[0]))]
-            for j, nm in enumerate(names):
-                self.setfeat(t, nm, [fval(r[j]) for r in rows])
+            t = self.make_track(case, len(rows))
+            names = self.names(case)
             outname = case.get("outname", "out")
-            if env.get("extra_after"):
-                self.extras(t, {"extra": [e for e in env.get("extra", []) if e[0] != outname]})
             ths = [fval(x) for x in case["ths"]]
-            mode = self.S.MODE_COMPARAISON_AND if case["mode"] == "and" else self.S.MODE_COMPARAISON_OR
-            # history: what the output feature holds before the call whose result is compared
             pre = case.get("pre")
-            if pre:
-                if pre["type"] == "seg":
-                    pm = self.S.MODE_COMPARAISON_AND if pre["mode"] == "and" else self.S.MODE_COMPARAISON_OR
-                    self.S.segmentation(t, names, outname, [fval(x) for x in pre["ths"]], pm)
-                elif pre["type"] == "vals":
-                    self.setfeat(t, outname, [VALS[v] for v in pre["vals"]])
-                else:
-                    self.setfeat(t, outname, [1] * t.size())
-            if case.get("scalar"):
-                self.S.segmentation(t, names[0], outname, ths[0], mode)
-            else:
-                self.S.segmentation(t, names, outname, ths, mode)
+            if pre and pre["type"] == "seg":
+                self.S.segmentation(t, names, outname, [fval(x) for x in pre["ths"]], self.mode_const(pre["mode"]))
+            afs_form, ths_form = self.forms(case)
+            self.S.segmentation(t, names[0] if afs_form == "str" else names, outname,
+                                ths[0] if ths_form == "scalar" else ths, self.mode_const(case["mode"]))
             mk = [t.getObsAnalyticalFeature(outname, i) for i in range(t.size())]
             # 1 / 0 by value (1.0 or True would do as well); anything else (stale 0.5, NaN, 2) is shown as '?'
-            out = {"markers": "".join("1" if v == 1 else "0" if v == 0 else "?" for v in mk)}
+            out = {"markers": "".join("1" if v == 1 else "0" if v == 0 else "?" for v in mk), "table": self.read_table(t)}
             if case.get("split"):
-                out["pieces"], out["uids"] = self.pieces_of(self.S.split(t, outname))
+                out.update(self.split_and_read(t, outname))
             return out
+        if k == "coll":
+            tracks, off = [], 0
+            for rows in case["tracks"]:
+                tracks.append(self.make_track({"kind": "seg", "rows": rows}, len(rows), off))
+                off += len(rows)
+            coll = self.TC(tracks)
+            names = ["f%d" % j for j in range(len(case["tracks"][0][0]))]
+            ths = [fval(x) for x in case["ths"]]
+            if case["mode"] == "default":
+                coll.segmentation(names, "out", ths)
+            else:
+                coll.segmentation(names, "out", ths, self.mode_const(case["mode"]))
+            marks = []
+            allnames, allsnap = None, []
+            for t in tracks:
+                mk = [t.getObsAnalyticalFeature("out", i) for i in range(t.size())]
+                marks.append("".join("1" if v == 1 else "0" if v == 0 else "?" for v in mk))
+                nm, sn = self.snapshot(t)
+                allnames = nm
+                allsnap += sn
+            res = coll.split_segmentation("out")
+            pieces, uids, content = self.pieces_of(res, allnames, allsnap)
+            if content is None and coll.size() != len(tracks):
+                content = "split_segmentation() changed the collection it was called on"
+            return {"markers": marks, "pieces": pieces, "uids": uids, "content": content}
         raise ValueError(k)
 
     # ---------------------------------------------------------------- model
     def marks(self, case):
         if case["kind"] == "split":
             return [c == "1" for c in case["m"]]
+        src = case.get("src", "marker")
+        if src in VIRTUAL:          # the marker is a virtual feature: a coordinate equal to 1
+            return [coord(p[VIRTUAL.index(src)]) == 1 for p in case["pts"]]
+        if src == "idx":
+            return [i == 1 for i in range(len(case["vals"]))]
         return [VALS[v] == 1 for v in case["vals"]]
+
+    @staticmethod
+    def pts_tok(pts):
+        return ";".join(",".join(fbits(coord(c)) for c in p) for p in pts) or "_"
+
+    @staticmethod
+    def limit_tok(case):
+        lim = case.get("limit", "default")
+        return fbits(0.0 if lim == "default" else float(limval(lim)))
+
+    @staticmethod
+    def table_tok(tab):
+        return ";".join("%s=%s" % (nm, ",".join(valtok(tokval(x)) for x in toks) or "_") for nm, toks in tab) or "_"
 
     def requests(self, case):
         k = case["kind"]
         if k in ("split", "splitv"):
             return ["C11.split " + ("".join("1" if b else "0" for b in self.marks(case)) or "_")]
+        if k == "splitg":
+            return ["C11.splitlim %s %s %s" % (self.limit_tok(case), "".join("1" if b else "0" for b in self.marks(case)) or "_",
+                                               self.pts_tok(case["pts"]))]
+        if k == "splitidx":
+            return ["C11.splitidx %s %s %s" % (self.limit_tok(case), ",".join(str(i) for i in case["idx"]) or "_", self.pts_tok(case["pts"]))]
+        if k == "coll":
+            return ["C11.collseg %s %s %s" % ("and" if case["mode"] == "default" else case["mode"], ",".join(case["ths"]) or "_",
+                                              "|".join(";".join(",".join(r) for r in rows) for rows in case["tracks"]))]
         rows = ";".join(",".join(r) for r in case["rows"])
-        return ["C11.%s %s %s %s" % ("segsplit" if case.get("split") else "marker", case["mode"], ",".join(case["ths"]) or "_", rows)]
-
-    @staticmethod
-    def uids_for(pieces, n):
-        out, begin = [], 0
-        for c, p in enumerate(pieces):
-            end = begin + len(p) - 1
-            out.append("7.%d.%d.%d" % (c, begin, end))
-            begin = end + 1
-        return out
+        n = len(case["rows"])
+        lines = ["C11.%s %s %s %s" % ("segsplit" if case.get("split") else "marker", case["mode"], ",".join(case["ths"]) or "_", rows)]
+        # the whole sequence of calls on the feature table
+        names = self.names(case)
+        outname = case.get("outname", "out")
+        pts = self.points(case, n)
+        virt = ";".join("%s=%s" % (v, ",".join(valtok(coord(p[c])) for p in pts)) for c, v in enumerate(VIRTUAL))
+        calls = []
+        pre = case.get("pre")
+        if pre and pre["type"] == "seg":
+            calls += [pre["mode"], "l:" + ",".join(names), outname, "l:" + (",".join(pre["ths"]) or "_")]
+        afs_form, ths_form = self.forms(case)
+        calls += [case["mode"], ("s:" + names[0]) if afs_form == "str" else "l:" + ",".join(names), outname,
+                  ("s:" + case["ths"][0]) if ths_form == "scalar" else "l:" + (",".join(case["ths"]) or "_")]
+        lines.append("C11.segseq %d %s %s %s" % (n, virt, self.table_tok(self.table(case, n)), " ".join(calls)))
+        return lines
 
     def decode(self, case, replies):
         k = case["kind"]
+        for r in replies:
+            if r == "bad-request":
+                raise ValueError("bad-request")
+        for r in replies:
+            if r.startswith("err:"):
+                return {"err": r}
         r = replies[0]
-        if r.startswith("err:"):
-            return {"err": r}
-        if r == "bad-request":
-            raise ValueError("bad-request")
-        if k in ("split", "splitv"):
-            pieces = parse_pieces(r)
-            return {"pieces": pieces, "uids": self.uids_for(pieces, len(self.marks(case)))}
+        if k == "splitidx":
+            return {"pieces": parse_pieces(r), "content": None}
+        if k in ("split", "splitv", "splitg"):
+            pc, ids = r.split(" ")
+            uid = (case.get("env") or {}).get("uid", 7)
+            return {"pieces": parse_pieces(pc), "content": None,
+                    "uids": [] if ids == "_" else ["%s.%s" % (uid, i) for i in ids.split(";")]}
+        if k == "coll":
+            mk, pc = r.split(" ")
+            return {"markers": ["" if m == "_" else m for m in mk.split("|")], "pieces": parse_pieces(pc), "content": None}
+        out = {}
         if case.get("split"):
             mk, pc = r.split(" ")
-            pieces = parse_pieces(pc)
-            return {"markers": "" if mk == "_" else mk, "pieces": pieces, "uids": self.uids_for(pieces, len(case["rows"]))}
-        return {"markers": "" if r == "_" else r}
+            out = {"pieces": parse_pieces(pc), "content": None}
+        else:
+            mk = r
+        out["markers"] = "" if mk == "_" else mk
+        out["table"] = parse_table(replies[1])
+        col = dict((nm, c) for nm, c in out["table"]).get(case.get("outname", "out"))
+        if col is None or "".join(col) != out["markers"]:
+            raise ValueError("model: output column %s of the table differs from the markers %s" % (col, out["markers"]))
+        return out
 
     def compare(self, case, impl_out, model_out):
         if not self.in_domain(case):
@@ -354,11 +773,17 @@ class P(Prop):
                 return None
             return "impl=%s model=%s" % (impl_out, model_out)
         # canonicalisation: the statement leaves open whether an empty trailing piece is emitted when the last
-        # observation is marked, and says nothing about the pieces' uids (not compared)
+        # observation is marked. The pieces' uids (<uid>.<count>.<begin>.<end>, modelled by `splitU`) are compared on
+        # the split streams; they are not part of the statement, so `spec` never looks at them
+        with_uids = case["kind"] in ("split", "splitv", "splitg")
         def canon(o):
-            o = {k: v for k, v in o.items() if k != "uids"}
-            if o.get("pieces") and o["pieces"][-1] == []:
+            o = {k: v for k, v in o.items() if k != "uids" or with_uids}
+            if case["kind"] == "coll":
+                o["pieces"] = [p for p in o["pieces"] if p]      # one possible empty trailing piece per track
+            elif case["kind"] != "splitidx" and o.get("pieces") and o["pieces"][-1] == []:
                 o["pieces"] = o["pieces"][:-1]
+                if with_uids:
+                    o["uids"] = o["uids"][:-1]
             return o
         return Prop.compare(self, case, canon(impl_out), canon(model_out))
 
@@ -366,13 +791,53 @@ class P(Prop):
     def spec(self, case, out):
         if not self.in_domain(case):
             return None
-        if "err" in out:
-            return "raised %s (%s)" % (out["err"], out.get("detail"))
         k = case["kind"]
+        if "err" in out:
+            if k == "splitidx":
+                return None         # an index outside the track: no claim
+            return "raised %s (%s)" % (out["err"], out.get("detail"))
+        if out.get("content"):
+            return out["content"]
         if k in ("split", "splitv"):
             return oracle_split(self.marks(case), out["pieces"])
-        ths = [Fraction(x) for x in case["ths"]]
-        rows = [[None if v == "nan" else Fraction(v) for v in r] for r in case["rows"]]
+        if k == "splitg":
+            if case.get("limit", "default") in ("default", "0", "0.0"):
+                return oracle_split(self.marks(case), out["pieces"])
+            return oracle_kept(self.marks(case), out["pieces"])
+        if k == "splitidx":
+            return None             # the statement is about marker features; the pieces' content was checked above
+        if k == "coll":
+            ths = [exact(x) for x in case["ths"]]
+            want = [oracle_markers("and" if case["mode"] == "default" else case["mode"], ths,
+                                   [[exact(v) for v in r] for r in rows]) for rows in case["tracks"]]
+            if out["markers"] != want:
+                return "markers %s of the tracks of the collection, expected %s (thresholds %s, %s mode)" % (out["markers"], want, case["ths"], case["mode"])
+            # every track is split on its own; a track without a marked observation yields nothing
+            bounds, off = [], 0
+            for w in want:
+                bounds.append((off, off + len(w)))
+                off += len(w)
+            groups = [[] for _ in want]
+            cur = 0
+            for p in out["pieces"]:
+                if p:
+                    owner = [j for j, (a, b) in enumerate(bounds) if a <= p[0] < b]
+                    if not owner or any(not (bounds[owner[0]][0] <= g < bounds[owner[0]][1]) for g in p):
+                        return "piece %s mixes observations of several tracks" % p
+                    cur = owner[0]      # (the order of the tracks among themselves is not in the statement: correspondence only)
+                groups[cur].append([g - bounds[cur][0] for g in p])
+            for j, w in enumerate(want):
+                if "1" not in w and groups[j] == [list(range(len(w)))]:
+                    # the statement is about split() on one track; whether the collection front end leaves out a track
+                    # that has no marked observation (what it does) or keeps it whole (what its docstring suggests) is
+                    # not fixed by it: both are accepted here, the correspondence pins the current behaviour
+                    continue
+                e = oracle_split([c == "1" for c in w], groups[j])
+                if e:
+                    return "track %d of the collection: %s" % (j, e)
+            return None
+        ths = [exact(x) for x in case["ths"]]
+        rows = [[exact(v) for v in r] for r in case["rows"]]
         want = oracle_markers(case["mode"], ths, rows)
         if out["markers"] != want:
             bad = [i for i in range(len(want)) if i >= len(out["markers"]) or out["markers"][i] != want[i]][0]
@@ -398,10 +863,51 @@ class P(Prop):
             for i in range(len(v)):
                 if len(v) > 1:
                     yield {"kind": "splitv", "vals": v[:i] + v[i + 1:]}
+        elif k in ("splitg", "splitidx"):
+            for key in ("env", "times"):
+                if case.get(key):
+                    yield {k_: v for k_, v in case.items() if k_ != key}
+            n = len(case["pts"])
+            for i in range(n):
+                if n > 1:
+                    c = dict(case, pts=case["pts"][:i] + case["pts"][i + 1:])
+                    if k == "splitg":
+                        c["vals"] = case["vals"][:i] + case["vals"][i + 1:]
+                    else:
+                        c["idx"] = [j for j in case["idx"] if -n + 1 <= j < n - 1]
+                    if case.get("times"):
+                        c["times"] = case["times"][:i] + case["times"][i + 1:]
+                    yield c
+            if k == "splitg":
+                for i, v in enumerate(case["vals"]):
+                    if v not in ("0", "1"):
+                        yield dict(case, vals=case["vals"][:i] + ["1" if VALS[v] == 1 else "0"] + case["vals"][i + 1:])
+            else:
+                for i in range(len(case["idx"])):
+                    yield dict(case, idx=case["idx"][:i] + case["idx"][i + 1:])
+            for i in range(n):
+                for c_ in range(3):
+                    dflt = [str(i), str(2 * i), "0"][c_]
+                    if case["pts"][i][c_] != dflt:
+                        pts = [list(p) for p in case["pts"]]
+                        pts[i][c_] = dflt
+                        yield dict(case, pts=pts)
+        elif k == "coll":
+            tr = case["tracks"]
+            for i in range(len(tr)):
+                if len(tr) > 1:
+                    yield dict(case, tracks=tr[:i] + tr[i + 1:])
+            for i in range(len(tr)):
+                for j in range(len(tr[i])):
+                    if len(tr[i]) > 1:
+                        yield dict(case, tracks=tr[:i] + [tr[i][:j] + tr[i][j + 1:]] + tr[i + 1:])
         else:
             rows = case["rows"]
-            if case.get("env"):
-                yield {k_: v for k_, v in case.items() if k_ != "env"}
+            for key in ("env", "times", "pts"):
+                if case.get(key):
+                    yield {k_: v for k_, v in case.items() if k_ != key}
+            if case.get("names") and not case.get("outname"):
+                yield {k_: v for k_, v in case.items() if k_ != "names"}
             if case.get("pre") and case["pre"]["type"] != "all1":
                 yield dict(case, pre={"type": "all1"})
             for i in range(len(rows)):
@@ -410,11 +916,19 @@ class P(Prop):
                     if case.get("pre", {}).get("type") == "vals":
                         v = case["pre"]["vals"]
                         c2["pre"] = {"type": "vals", "vals": v[:i] + v[i + 1:]}
+                    for key in ("times", "pts"):
+                        if case.get(key):
+                            c2[key] = case[key][:i] + case[key][i + 1:]
                     yield c2
             kf = len(rows[0])
             if kf > 1 and len(case["ths"]) >= kf and not case.get("pre") and not case.get("outname"):
                 for j in range(kf):
-                    yield dict(case, rows=[r[:j] + r[j + 1:] for r in rows], ths=case["ths"][:j] + case["ths"][j + 1:], scalar=False)
+                    c2 = dict(case, rows=[r[:j] + r[j + 1:] for r in rows], ths=case["ths"][:j] + case["ths"][j + 1:], scalar=False)
+                    if case.get("names"):
+                        c2["names"] = case["names"][:j] + case["names"][j + 1:]
+                    c2.pop("afs_form", None)
+                    c2.pop("ths_form", None)
+                    yield c2
             if case.get("split"):
                 yield dict(case, split=False)
 
@@ -426,6 +940,12 @@ class P(Prop):
                 yield {"kind": "split", "m": m[:i] + ("0" if m[i] == "1" else "1") + m[i + 1:]}
             yield {"kind": "split", "m": m + "0"}
             yield {"kind": "split", "m": m + "1"}
+        elif k == "splitg":
+            yield dict(case, limit="default")
+            for i in range(len(case["pts"])):
+                pts = [list(p) for p in case["pts"]]
+                pts[i][2] = "nan"
+                yield dict(case, pts=pts, limit="default")
         elif k == "seg":
             for mode in ("and", "or"):
                 yield dict(case, mode=mode)
